@@ -226,6 +226,15 @@ func TestVerif_C11_host(t *testing.T) {
 		"example.com.", "evil.com.", "www.example.com.", "www.example.com.:443", "example.com:", "EXAMPLE.com", "a.b.c", "localhost", "[::ffff:1.2.3.4]"} {
 		c11HostCase(s, a, true)
 	}
+	// spellings a configured entry (AllowedHost/AllowedDomain argument) or an odd Location can have and
+	// that are NOT authorities of the grammar: userinfo, empty host, non-numeric or signed port,
+	// IPv4-mapped IPv6 next to the IPv4 text, zone ids: the model must answer what the code answers
+	for _, a := range []string{"", ":", ":80", ":abc", "host:abc", "host:80x", "host:-1", "host:+80", "user@host", "user:pw@host:80", "allowed.example@evil.example",
+		"[::1]:x", "[::1]x", "[::1", "::1]", "[]", "[]:80", "[%eth0]", "[fe80::1%25eth0]", "[fe80::1%]", "::ffff:1.2.3.4", "1.2.3.4", "[::ffff:1.2.3.4]:80",
+		"[::FFFF:1.2.3.4]", "[0:0:0:0:0:ffff:102:304]", "1.2.3.4.", "1.2.3", "1.2.3.4.5", "0x7f.1", "0177.0.0.1", "host..", ".", "..", ".host", "a..b.c"} {
+		s.Count("fixed-odd-spelling")
+		c11HostCase(s, a, false)
+	}
 	n := verifh.N(20000, 400000)
 	for i := 0; i < n; i++ {
 		if r.Intn(3) != 0 {
@@ -237,7 +246,7 @@ func TestVerif_C11_host(t *testing.T) {
 			c11HostCase(s, c11RawString(s), false)
 		}
 	}
-	s.FinishRequire("oracle", "raw", "name", "name+port", "name+emptyport", "name-dot", "name-dot+port", "ip4", "ip4+port", "ip6", "ip6+port", "ip6+emptyport", "ip6-zone", "ip6-zone+port", "legacy-affected-input")
+	s.FinishRequire("oracle", "raw", "name", "name+port", "name+emptyport", "name-dot", "name-dot+port", "ip4", "ip4+port", "ip6", "ip6+port", "ip6+emptyport", "ip6-zone", "ip6-zone+port", "legacy-affected-input", "fixed-odd-spelling")
 }
 
 // TestVerif_C11_spec: the Lean SPEC (structured authority → render / specHost / specDomain /
@@ -292,7 +301,7 @@ func TestVerif_C11_policy(t *testing.T) {
 	s := c11New(t, "policy",
 		"compositions of 1–4 policies (nil, No, Max around len(via), SameHost, SameDomain, AllowedHost/Domain with 0–3 entries written as other spellings of the hosts involved, AlwaysCopy with 0–3 header names in either case) evaluated through Client.httpClient.CheckRedirect on (req host, via of 1..limit+1 hosts) pairs that are related spellings/near misses; request and via[0] headers random subsets incl. a non-canonical map key; oracle: decision from the net/url host/domain oracle, first refusal wins; non-trivial = ≥1 host policy or copy policy present")
 	r := s.Rand()
-	hdrPool := []string{"Authorization", "Cookie", "X-Custom", "X-Multi", "X-Other", "Www-Authenticate"}
+	hdrPool := []string{"Authorization", "Cookie", "X-Custom", "X-Multi", "X-Other", "Www-Authenticate", "Host", "Referer"}
 	c := C()
 	var prevCl *Client
 	var prevPs []c11Pol
@@ -340,15 +349,27 @@ func TestVerif_C11_policy(t *testing.T) {
 			}
 			return h
 		}
+		// Everything a *http.Request carries besides URL.Host is a DECOY for the host policies: the
+		// Host field (what a Host header override sets), userinfo, scheme, method, path, the
+		// response that caused the redirect. They are drawn from the same family of related
+		// spellings / near misses as the URL hosts, so that a policy reading any of them instead of
+		// URL.Host decides differently on many cases.
+		decoyPool := []c11Auth{a, b}
 		hreq := &http.Request{Method: "GET", URL: &url.URL{Scheme: "http", Host: req, Path: "/"}, Header: toHeader(rh)}
+		c11Decoy(r, hreq, decoyPool, s)
 		var hvia []*http.Request
 		for j, v := range via {
 			q := &http.Request{Method: "GET", URL: &url.URL{Scheme: "http", Host: v, Path: "/"}, Header: http.Header{}}
 			if j == 0 {
 				q.Header = toHeader(vh)
 			}
+			c11Decoy(r, q, decoyPool, s)
+			if j > 0 {
+				q.Response = &http.Response{StatusCode: 302, Request: hvia[j-1]}
+			}
 			hvia = append(hvia, q)
 		}
+		hreq.Response = &http.Response{StatusCode: 302, Request: hvia[len(hvia)-1]}
 		nontriv := false
 		// Either configure the shared client directly, or reach the policy through a family of
 		// clients grown by Clone / SetRedirectPolicy calls: whatever the history, the client
@@ -370,7 +391,7 @@ func TestVerif_C11_policy(t *testing.T) {
 			var j int
 			j, scen = fam.pick(r)
 			cl, ps = fam.clients[j], fam.want[j]
-			line0 = "c11clone " + fam.encOps() + " " + strconv.Itoa(j)
+			line0 = "c11fam " + fam.encOps() + " " + strconv.Itoa(j) + " c11policyx"
 			s.Count(scen)
 			if fam.emptied {
 				s.Count("family:empty-set-call")
@@ -382,7 +403,7 @@ func TestVerif_C11_policy(t *testing.T) {
 				real[j] = p.real()
 			}
 			c.SetRedirectPolicy(real...)
-			line0 = "c11policy " + c11EncPols(ps)
+			line0 = "c11policyx " + c11EncPols(ps)
 			s.Count("direct")
 		}
 		prevCl, prevPs, prevLine0, prevScen = cl, ps, line0, scen
@@ -424,11 +445,16 @@ func TestVerif_C11_policy(t *testing.T) {
 		}
 		s.Count("decision:" + c11DecisionName[dec])
 		probes := append([]string{"x-custom"}, hdrPool...)
-		line := line0 + " " + verifh.Hex(req) + " " + verifh.HexList(via) + " " +
+		encVia := make([]string, len(hvia))
+		for j, q := range hvia {
+			encVia[j] = c11EncReq(q)
+		}
+		line := line0 + " " + c11EncReq(hreq) + " " + strings.Join(encVia, ";") + " " +
 			c11EncHeaders(rh) + " " + c11EncHeaders(vh) + " " + verifh.HexList(probes)
 		ans := c11DecisionName[dec] + " " + c11ShowProbes(func(k string) []string { return hreq.Header.Values(k) }, probes)
 		s.Case(line, ans, dec == want, class, nontriv,
 			scen+c11ShowPols(ps)+" req="+req+" via="+strings.Join(via, ",")+" -> "+c11DecisionName[dec])
 	}
-	s.FinishRequire("direct", "reused-policy-instance", "family:original", "family:set-on-clone", "family:clone-of-clone-inherits", "family:clone-inherits,parent-reconfigured-later", "family:clone-inherits", "family:empty-set-call", "pol:nil", "pol:no", "pol:max", "pol:samehost", "pol:samedomain", "pol:ahost", "pol:adomain", "pol:copy", "decision:allow", "decision:deny", "decision:uselast")
+	s.FinishRequire("direct", "reused-policy-instance", "family:original", "family:set-on-clone", "family:clone-of-clone-inherits", "family:clone-inherits,parent-reconfigured-later", "family:clone-inherits", "family:empty-set-call", "pol:nil", "pol:no", "pol:max", "pol:samehost", "pol:samedomain", "pol:ahost", "pol:adomain", "pol:copy", "decision:allow", "decision:deny", "decision:uselast",
+		"decoy:host-field", "decoy:host-field=other-authority", "decoy:userinfo", "decoy:https", "decoy:method")
 }
